@@ -178,7 +178,7 @@ func (c *Client) computePublicKeyBytes() error {
 
 // SetPublicKey - set the public key
 func (c *Client) SetPublicKey(key string) error {
-	oldPK := c.PublicKey
+	oldPK, oldPKBytes, oldID := c.PublicKey, c.PublicKeyBytes, c.ID
 	c.PublicKey = key
 	if err := c.computePublicKeyBytes(); err != nil {
 		c.PublicKey = oldPK
@@ -192,6 +192,7 @@ func (c *Client) SetPublicKey(key string) error {
 
 	var ss = encryption.GetSignatureScheme(sigSchemeType)
 	if err := ss.SetPublicKey(c.PublicKey); err != nil {
+		c.PublicKey, c.PublicKeyBytes, c.ID = oldPK, oldPKBytes, oldID
 		return err
 	}
 	c.SigScheme = ss
